@@ -57,6 +57,11 @@ def canon(v, ty):
         return "[" + ",".join(canon(a, ty["key"]) + ":" + canon(b, ty["val"]) for a, b in v.items()) + "]"
     if k == "union":
         return canon(v, ty["a"]) if isinstance(v, int) else canon(v, ty["b"])
+    if k == "het":
+        v = list(v)
+        n = len(ty["tails"])
+        return "(" + ",".join([canon(v[:len(v) - n], {"k": "list", "e": ty["e"]})] +
+                              [canon(x, t) for x, t in zip(v[len(v) - n:], ty["tails"])]) + ")"
     raise TypeError("no canonical form for " + k)
 
 
@@ -90,6 +95,13 @@ def encode(v, ty):
     if k == "tuple":
         out = []
         for x, t in zip(v, ty["es"]):
+            out += encode(x, t)
+        return out
+    if k == "het":
+        v = list(v)
+        n = len(ty["tails"])
+        out = encode(v[:len(v) - n], {"k": "list", "e": ty["e"]})
+        for x, t in zip(v[len(v) - n:], ty["tails"]):
             out += encode(x, t)
         return out
     if k == "outcome":
@@ -167,6 +179,8 @@ def gen_value(rng, ty, hint=None, ctx=None):
         return tuple(gen_value(rng, t) for t in ty["es"])
     if k == "abs":
         return ABS[ty["name"]]["gen"](rng)
+    if k == "het":
+        return gen_value(rng, {"k": "list", "e": ty["e"]}) + [gen_value(rng, t) for t in ty["tails"]]
     if k == "erased":
         r = rng.random()
         if r < 0.5:
@@ -308,7 +322,25 @@ def bip_index(rng, ctx):
     return [rng.randint(-1, l + 1), rng.randint(-1, r + 1)]
 
 
+def opb_constraint(rng, ctx):
+    n = rng.choice([0, 1, 2, 3, 4, 5])
+    terms = [(rng.choice([-3, -2, -1, 0, 1, 2, 3, 7, -2 ** 40]), rng.choice([-4, -3, -2, -1, 1, 2, 3, 4, 5])) for _ in range(n)]
+    op = rng.choice(["<=", ">=", "<", ">", "==", "!=", "="])
+    return terms + [op, rng.randint(-6, 8)]
+
+
+def vdw_N(rng, ctx):
+    return rng.choice([0, 1, 2, 3, 5, 8, 9, 12, 20, -1])
+
+
+def vdw_k(rng, ctx):
+    return rng.choice([1, 1, 2, 2, 3, 3, 4, 5, 9, 0, -1])
+
+
 HINTS = {
+    ("normalize_opb", "constraint"): opb_constraint,
+    ("_vdw_ap_generator", "N"): vdw_N,
+    ("_vdw_ap_generator", "k"): vdw_k,
     ("BipartiteEdgesVariables", "lit"): bip_lit,
     ("BipartiteEdgesVariables", "pattern"): bip_pattern,
     ("BipartiteEdgesVariables", "index"): bip_pattern,
@@ -409,7 +441,9 @@ def make_call(rng, fn, manifest):
         """canonical answer of the real code; afterwards the probes hold the observer outcomes"""
         if cls is None:
             f = getattr(mod, fn["py"])
-            r = f(*strip_omitted(real)) if not fn["vararg"] else f(*real[0])
+            import copy
+            args = copy.deepcopy(strip_omitted(real))
+            r = f(*args) if not fn["vararg"] else f(*args[0])
             return "OK " + canon(r, fn["ret"])
         C = getattr(mod, cls)
         if fn["is_init"]:
